@@ -49,3 +49,52 @@ Theorem C17_min_forgets_binary64 : forall (p : N) (h1 h2 : list PrimFloat.float)
   last (min_outs FOps (mkMin p 0 0 (repeat (inf FOps) (N.to_nat p))) h1) (inf FOps) =
   last (min_outs FOps (mkMin p 0 0 (repeat (inf FOps) (N.to_nat p))) h2) (inf FOps).
 Proof. intros p h1 h2. exact (min_forgets PrimFloat.float FOps okF p h1 h2 float_order_min). Qed.
+
+(* ---- the remaining windowed indicators (corollaries of their exact refinements, Proofs/Forget2.v) ---- *)
+From Coq Require Import List.
+From TA Require Import Proofs.Wiring Proofs.XRoc Proofs.XEr Proofs.XMfi Proofs.XBands Proofs.XCci Proofs.Forget2.
+Open Scope N_scope.
+
+Theorem C17_max_forgets : forall (F : Type) (O : Ops F) (P : F -> Prop) (p : N) (h1 h2 : list F),
+  order_on (fun a b => ltb O b a) (ninf O) P -> 0 < p -> p <= ALLOC_MAX -> Forall P h1 -> Forall P h2 -> h1 <> [] -> h2 <> [] ->
+  lastn (N.to_nat p) h1 = lastn (N.to_nat p) h2 ->
+  last (max_outs O (mkMax p 0 0 (repeat (ninf O) (N.to_nat p))) h1) (ninf O) =
+  last (max_outs O (mkMax p 0 0 (repeat (ninf O) (N.to_nat p))) h2) (ninf O).
+Proof. exact max_forgets. Qed.
+
+Theorem C17_max_forgets_binary64 : forall (p : N) (h1 h2 : list PrimFloat.float),
+  0 < p -> p <= ALLOC_MAX -> Forall okF h1 -> Forall okF h2 -> h1 <> [] -> h2 <> [] ->
+  lastn (N.to_nat p) h1 = lastn (N.to_nat p) h2 ->
+  last (max_outs FOps (mkMax p 0 0 (repeat (ninf FOps) (N.to_nat p))) h1) (ninf FOps) =
+  last (max_outs FOps (mkMax p 0 0 (repeat (ninf FOps) (N.to_nat p))) h2) (ninf FOps).
+Proof. intros p h1 h2. exact (max_forgets PrimFloat.float FOps okF p h1 h2 float_order_max). Qed.
+
+(* FastStochastic (scalar path), exact arithmetic: a function of the last n prices *)
+Theorem C17_fast_forgets : forall p s (h1 h2 : list R), fast_new XROps p = Ok s -> h1 <> [] -> h2 <> [] ->
+  lastn (N.to_nat p) h1 = lastn (N.to_nat p) h2 ->
+  last (fast_outs XROps s (map Fin h1)) XNaN = last (fast_outs XROps s (map Fin h2)) XNaN.
+Proof. exact fast_forgets. Qed.
+
+(* CCI: a function of the last n typical prices *)
+Theorem C17_cci_forgets : forall p s (b1 b2 : list rbar), cci_new XROps p = Ok s -> b1 <> [] -> b2 <> [] ->
+  lastn (N.to_nat p) (map tp3 b1) = lastn (N.to_nat p) (map tp3 b2) ->
+  last (cci_bar_outs s (map mkb b1)) XNaN = last (cci_bar_outs s (map mkb b2)) XNaN.
+Proof. exact cci_forgets. Qed.
+
+(* RateOfChange, EfficiencyRatio, MoneyFlowIndex: functions of the last n+1 inputs *)
+Theorem C17_roc_forgets : forall p s (h1 h2 : list R), roc_new XROps p = Ok s -> h1 <> [] -> h2 <> [] ->
+  lastn (S (N.to_nat p)) h1 = lastn (S (N.to_nat p)) h2 ->
+  last (roc_outs s (map Fin h1)) XNaN = last (roc_outs s (map Fin h2)) XNaN.
+Proof. exact roc_forgets. Qed.
+
+Theorem C17_er_forgets : forall p s (h1 h2 : list R), er_new XROps p = Ok s -> h1 <> [] -> h2 <> [] ->
+  lastn (S (N.to_nat p)) h1 = lastn (S (N.to_nat p)) h2 ->
+  last (er_outs s (map Fin h1)) XNaN = last (er_outs s (map Fin h2)) XNaN.
+Proof. exact er_forgets. Qed.
+
+Theorem C17_mfi_forgets : forall p s (B1 B2 : list mbar) c1 c2, mfi_new XROps p = Ok s ->
+  Forall (fun b => (0 <= rawr b)%R) (B1 ++ [c1]) -> Forall (fun b => (0 <= rawr b)%R) (B2 ++ [c2]) ->
+  B1 <> [] -> B2 <> [] ->
+  lastn (S (N.to_nat p)) (B1 ++ [c1]) = lastn (S (N.to_nat p)) (B2 ++ [c2]) ->
+  last (mfi_outs s (map mkm (B1 ++ [c1]))) XNaN = last (mfi_outs s (map mkm (B2 ++ [c2]))) XNaN.
+Proof. exact mfi_forgets. Qed.
